@@ -176,6 +176,11 @@ func cmdCheck(args []string) int {
 	lem := P.lemmaObligationsFor(*prop, usedLemmaSet)
 	obls = append(obls, lem...)
 	workers := 6
+	if all && len(obls) > 3000 {
+		// cross-solver agreement (every solver run to the end on every obligation) only for the smaller
+		// properties; the large ones use first-proof-wins with the thorough budget
+		all = false
+	}
 	solveAll(P, obls, timeout, all, workers)
 	// inconclusive answers (solver timeouts under load) are retried one at a time with a longer budget;
 	// an unsat answer is a proof whenever it arrives, a sat answer is never overridden
